@@ -14,7 +14,10 @@ Sites:  set(...) / frozenset(...) / {a, b} / set comprehensions                 
 Each site is classified by its consumer, following the value upwards through transparent wrappers (list(), tuple(),
 comprehensions, +, |), through local variables and `self.x` attributes (all uses), through `return` (all call sites in the
 plugin) and through arguments of plugin functions (all uses of the parameter), depth <= 5:
-        SSorted      reaches sorted(...) (or min/max) before anything order dependent
+        SSorted      reaches sorted(...) (or min/max) before anything order dependent, sorted WITHOUT a key or with a key that
+                     is injective for syntactic reasons (`lambda x: x`, `lambda x: (..., x, ...)`)
+        SSortedByKey reaches sorted/min/max(..., key=k) with any other k: the sort is stable, elements with equal keys keep the
+                     iteration order of the set (NOT covered)
         SMember      only `x in S` tests                 SSize   only len()/truth value/any/all/sum
         SKeyOnly     id used as dict key / `in` on a dict / == comparison      SErrorOnly   only inside raise / logging
         SValuesOnly  .values() of the id-keyed dict      SDeleteOnly / SKeyedWrite   listing only deleted / one write per item
@@ -22,8 +25,11 @@ plugin) and through arguments of plugin functions (all uses of the parameter), d
         SExposed     anything else (fail-closed): iteration order or value may reach the output
         SModConst / SMemoPure / SModState   module-level state (emit_modstate): constant after import / pure memo / changed by a
                      function (NOT covered: the output may depend on what the process generated before)
-Plugins: the function exported as `generate` of each plugin: does it call a cleanup (a loop that only unlinks <dir>.glob(PAT))
-before its first write, are the written names fixed string constants, do all written names match the cleaned pattern.
+Plugins: the function exported as `generate` of each plugin, with the helper functions of the plugin package it calls (followed
+recursively, parameters bound to the arguments of each call; see Plugin.ownership for the order-of-effects argument): does an
+unconditional cleanup (a loop that only unlinks <dir>.glob(PAT)) complete before the first write, are the written names fixed
+string constants, do all written names match the cleaned pattern.  Writes are <path>.write_text/.write_bytes, open() in a
+writing mode, shutil / os copy-move-rename calls; a write whose file name cannot be resolved counts as not owned (fail-closed).
 usage: x_emit.py <out.v> <out.json>
 """
 import ast
@@ -36,7 +42,7 @@ from vcommon import REPO, q, write_if_changed
 
 PLUGROOT = os.path.join(REPO, "generator", "plugins")
 PLUGINS = ["python", "rust", "dotnet", "testdata"]
-ORDER = {"SExposed": 0, "SModState": 0, "SModConst": 9, "SMemoPure": 9, "SIdSource": 9, "SSorted": 1, "SKeyedWrite": 2, "SDeleteOnly": 3, "SValuesOnly": 4, "SMember": 5, "SSize": 6, "SKeyOnly": 7, "SErrorOnly": 8}
+ORDER = {"SExposed": 0, "SSortedByKey": 0, "SModState": 0, "SModConst": 9, "SMemoPure": 9, "SIdSource": 9, "SSorted": 1, "SKeyedWrite": 2, "SDeleteOnly": 3, "SValuesOnly": 4, "SMember": 5, "SSize": 6, "SKeyOnly": 7, "SErrorOnly": 8}
 TRANSPARENT = {"list", "tuple", "iter", "enumerate", "reversed", "set", "frozenset", "filter", "map", "zip", "chain"}
 AGG = {"len", "any", "all", "sum", "bool"}
 SORTERS = {"sorted", "min", "max"}
@@ -63,6 +69,37 @@ def dotted(e):
     return None
 
 
+def injective_key(e):
+    """key=<e> of sorted/min/max is injective for syntactic reasons: `lambda x: x` or `lambda x: (..., x, ...)`; the constant
+    None (= no key)"""
+    if isinstance(e, ast.Constant) and e.value is None:
+        return True
+    if not (isinstance(e, ast.Lambda) and len(e.args.args) == 1 and not e.args.vararg and not e.args.kwarg and not e.args.kwonlyargs
+            and not e.args.posonlyargs and not e.args.defaults):
+        return False
+    x = e.args.args[0].arg
+    b = e.body
+    if isinstance(b, ast.Name) and b.id == x:
+        return True
+    return isinstance(b, ast.Tuple) and any(isinstance(t, ast.Name) and t.id == x for t in b.elts)
+
+
+def own_walk(g):
+    """all nodes below g without descending into nested function / class definitions (their bodies run when they are called,
+    not where they are written); lambdas are descended into (over-approximation: their effects count at the place of definition)"""
+    stack = list(ast.iter_child_nodes(g))
+    while stack:
+        n = stack.pop()
+        yield n
+        if isinstance(n, (ast.FunctionDef, ast.AsyncFunctionDef, ast.ClassDef)):
+            continue
+        stack.extend(ast.iter_child_nodes(n))
+
+
+def call_name(n):
+    return n.func.id if isinstance(n.func, ast.Name) else (n.func.attr if isinstance(n.func, ast.Attribute) else None)
+
+
 def weakest(classes):
     classes = [c for c in classes if c]
     if not classes:
@@ -77,6 +114,7 @@ class Plugin:
         self.rel = os.path.relpath(self.dir, REPO).replace(os.sep, "/")
         self.mods = {}
         self.funcs = {}        # simple name -> [FunctionDef]
+        self.classes = {}      # simple name -> [ClassDef]
         for fn in sorted(os.listdir(self.dir)):
             if fn.endswith(".py"):
                 path = os.path.join(self.dir, fn)
@@ -90,6 +128,8 @@ class Plugin:
                 for n in ast.walk(tree):
                     if isinstance(n, (ast.FunctionDef, ast.AsyncFunctionDef)):
                         self.funcs.setdefault(n.name, []).append(n)
+                    if isinstance(n, ast.ClassDef):
+                        self.classes.setdefault(n.name, []).append(n)
 
     # ---- helpers
     @staticmethod
@@ -128,7 +168,19 @@ class Plugin:
             is_arg = any(a is node for a in p.args) or any(k.value is node for k in p.keywords)
             if is_arg and isinstance(p.func, ast.Name):
                 if fname in SORTERS and p.args and p.args[0] is node:
-                    return ("SSorted", "%s(...) at line %d" % (fname, p.lineno))
+                    # sorted()/min()/max() are functions of the MULTISET of their elements only when the order they sort by is
+                    # antisymmetric on the elements.  With key=k Python's sort is stable (min/max return the first extremal
+                    # element): elements whose keys compare equal come out in the iteration order of the set, so the result
+                    # depends on the hash seed unless k is injective on the elements (Emit.key_sorted_perm_invariant needs
+                    # `key_inj`; Emit.key_sorted_ties_exposed is the counter-example without it).  Injectivity is accepted
+                    # only syntactically: no key, `lambda x: x`, or a lambda returning a tuple that contains x itself.
+                    kw = next((k for k in p.keywords if k.arg == "key"), None)
+                    if any(k.arg is None for k in p.keywords):
+                        return ("SSortedByKey", "%s(..., **kwargs) at line %d: a key function cannot be excluded" % (fname, p.lineno))
+                    if kw is None or injective_key(kw.value):
+                        return ("SSorted", "%s(...) at line %d%s" % (fname, p.lineno, "" if kw is None else " (key contains the element itself: injective)"))
+                    return ("SSortedByKey", "%s(..., key=%s) at line %d: the key is not known to be injective; elements with equal keys "
+                                            "keep the iteration order of the set" % (fname, ast.unparse(kw.value)[:40], p.lineno))
                 if fname in AGG:
                     return ("SSize", "%s(...) at line %d" % (fname, p.lineno))
                 if fname in TRANSPARENT:
@@ -395,6 +447,10 @@ class Plugin:
             gp = getattr(p, "_parent", None)
             if isinstance(gp, ast.For) and gp.iter is p and self.loop_only_deletes(gp):
                 return ("SDeleteOnly", "loop at line %d only deletes the (sorted) listed files" % gp.lineno)
+            kw = next((k for k in p.keywords if k.arg == "key"), None)
+            if any(k.arg is None for k in p.keywords) or (kw is not None and not injective_key(kw.value)):
+                # stable sort: entries with equal keys keep the order in which the OS lists them
+                return ("SExposed", "%s(<directory listing>, key=...) at line %d: the key is not known to be injective" % (p.func.id, p.lineno))
             return ("SSorted", "sorted(...) at line %d" % p.lineno)
         if isinstance(p, ast.comprehension) and p.iter is n and isinstance(p.target, ast.Name) and not p.ifs:
             comp = p._parent
@@ -417,6 +473,10 @@ class Plugin:
                     if c.func.attr in ("write_text", "write_bytes") and any(isinstance(x, ast.Attribute) and x.attr == "name" and dotted(x.value) == var for x in ast.walk(c.func.value)):
                         continue
                     keyed = False
+                elif isinstance(st, ast.Expr) and isinstance(st.value, ast.Call) and isinstance(st.value.func, ast.Name) and self.pure_writer_call(st.value, var):
+                    # h(<path built from item.name>, ...) where the plugin function h does nothing but <that parameter>.write_text(...):
+                    # the same statement as the direct write above after inlining h
+                    only_delete = False
                 elif isinstance(st, ast.Assign) and all(isinstance(t, ast.Name) for t in st.targets):
                     only_delete = False
                     for x in ast.walk(st.value):
@@ -430,6 +490,36 @@ class Plugin:
                 return ("SKeyedWrite", "loop at line %d writes one file per item under the item's own name" % p.lineno)
             return ("SExposed", "loop at line %d over a directory listing" % p.lineno)
         return ("SExposed", "directory listing consumed by %s at line %d" % (type(p).__name__, n.lineno))
+
+    def pure_writer_call(self, call, var):
+        """call = h(a1, ..) with h a plugin function whose body is only `<param>.write_text(..)` / `.write_bytes(..)` statements
+        (and a docstring) on ONE parameter, and the argument bound to that parameter is a path built from `<var>.name`"""
+        defs = self.funcs.get(call.func.id, [])
+        if not defs or call.keywords and any(k.arg is None for k in call.keywords):
+            return False
+        for h in defs:
+            params = [a.arg for a in h.args.posonlyargs + h.args.args]
+            target = None
+            for st in h.body:
+                if isinstance(st, ast.Expr) and isinstance(st.value, ast.Constant):
+                    continue
+                c = st.value if isinstance(st, ast.Expr) else None
+                if not (isinstance(c, ast.Call) and isinstance(c.func, ast.Attribute) and c.func.attr in ("write_text", "write_bytes")
+                        and isinstance(c.func.value, ast.Name) and c.func.value.id in params and target in (None, c.func.value.id)):
+                    return False
+                target = c.func.value.id
+            if target is None:
+                return False
+            arg = None
+            i = params.index(target)
+            if i < len(call.args) and not any(isinstance(a, ast.Starred) for a in call.args[:i + 1]):
+                arg = call.args[i]
+            for k in call.keywords:
+                if k.arg == target:
+                    arg = k.value
+            if arg is None or not any(isinstance(x, ast.Attribute) and x.attr == "name" and dotted(x.value) == var for x in ast.walk(arg)):
+                return False
+        return True
 
     def loop_only_deletes(self, p):
         if not (isinstance(p.target, ast.Name) and not p.orelse):
@@ -446,8 +536,11 @@ class Plugin:
         return True
 
     # ---- ownership
-    def str_suffixes(self, e, fn, depth=0):
-        """(list of (is_constant, suffix)) for the possible values of a file-name expression"""
+    # A context is (function, bindings): the function in whose body an expression is evaluated, and for its parameters the
+    # argument expression of the call under analysis together with the context of the caller.
+    def str_suffixes(self, e, ctx, depth=0):
+        """(list of (is_constant, suffix)) for the possible values of a file-name expression evaluated in ctx"""
+        fn, binds = ctx
         if isinstance(e, ast.Constant) and isinstance(e.value, str):
             return [(True, e.value)]
         if isinstance(e, ast.JoinedStr):
@@ -457,7 +550,7 @@ class Plugin:
             out = []
             for n in ast.walk(fn):
                 if isinstance(n, ast.Assign) and any(isinstance(t, ast.Name) and t.id == e.id for t in n.targets):
-                    out += self.str_suffixes(n.value, fn, depth + 1)
+                    out += self.str_suffixes(n.value, ctx, depth + 1)
                 if isinstance(n, (ast.For, ast.comprehension)):
                     it = n.iter
                     while isinstance(it, ast.Call) and isinstance(it.func, ast.Name) and it.func.id in ("sorted", "list", "tuple", "reversed", "iter") and it.args:
@@ -465,25 +558,53 @@ class Plugin:
                     if isinstance(n.target, ast.Name) and n.target.id == e.id:
                         if isinstance(it, ast.Call) and isinstance(it.func, ast.Attribute) and it.func.attr == "keys" and not it.args:
                             it = it.func.value              # for k in d.keys()
-                        out += self.dict_keys(it, fn, depth + 1)
+                        out += self.dict_keys(it, ctx, depth + 1)
                     elif isinstance(n.target, ast.Tuple) and any(isinstance(t, ast.Name) and t.id == e.id for t in n.target.elts):
                         first = n.target.elts[0]
                         if isinstance(first, ast.Name) and first.id == e.id and len(n.target.elts) == 2 and isinstance(it, ast.Call) \
                                 and isinstance(it.func, ast.Attribute) and it.func.attr == "items" and not it.args:
-                            out += self.dict_keys(it.func.value, fn, depth + 1)       # for k, v in d.items()
+                            out += self.dict_keys(it.func.value, ctx, depth + 1)       # for k, v in d.items()
                         else:
                             out.append((False, ""))
+            if e.id in binds:                               # a parameter: the argument of the call under analysis, in the caller
+                out += self.str_suffixes(binds[e.id][0], binds[e.id][1], depth + 1)
             return out or [(False, "?")]
-        if isinstance(e, ast.Attribute) and e.attr == "name":
-            return [(False, "<listed name>")]
+        if isinstance(e, ast.Attribute) and e.attr == "name" and depth < 9:
+            return self.listed_suffix(e.value, ctx, depth)
         return [(False, "?")]
 
-    def dict_keys(self, e, fn, depth):
+    def listed_suffix(self, v, ctx, depth):
+        """`v.name` where v runs over `<dir>.glob("*.ext")`: the name ends in .ext"""
+        fn, binds = ctx
+        if not isinstance(v, ast.Name):
+            return [(False, "?")]
+        out = []
+        for n in ast.walk(fn):
+            if isinstance(n, (ast.For, ast.comprehension)) and isinstance(n.target, ast.Name) and n.target.id == v.id:
+                it = n.iter
+                while isinstance(it, ast.Call) and isinstance(it.func, ast.Name) and it.func.id in ("sorted", "list", "tuple", "reversed", "iter") and it.args:
+                    it = it.args[0]
+                if isinstance(it, ast.Call) and isinstance(it.func, ast.Attribute) and it.func.attr in ("glob", "rglob") and it.args \
+                        and isinstance(it.args[0], ast.Constant) and isinstance(it.args[0].value, str) and it.args[0].value.startswith("*.") \
+                        and "/" not in it.args[0].value and not any(ch in it.args[0].value[1:] for ch in "*?["):
+                    out.append((False, it.args[0].value[1:]))
+                else:
+                    out.append((False, "?"))
+            if isinstance(n, (ast.Assign, ast.AnnAssign, ast.AugAssign, ast.NamedExpr)):
+                tg = n.targets if isinstance(n, ast.Assign) else [n.target]
+                if any(isinstance(t, ast.Name) and t.id == v.id for t in tg):
+                    out.append((False, "?"))
+        if v.id in binds and isinstance(binds[v.id][0], ast.Name) and depth < 9:
+            out += self.listed_suffix(binds[v.id][0], binds[v.id][1], depth + 1)
+        return out or [(False, "?")]
+
+    def dict_keys(self, e, ctx, depth):
         """file names = keys of the dict that expression e evaluates to"""
+        fn, binds = ctx
         if isinstance(e, ast.Dict):
             out = []
             for k in e.keys:
-                out += self.str_suffixes(k, fn, depth)
+                out += self.str_suffixes(k, ctx, depth) if k is not None else [(False, "?")]
             return out
         if isinstance(e, ast.Name):
             out = []
@@ -491,24 +612,168 @@ class Plugin:
                 if isinstance(n, (ast.Assign, ast.AnnAssign)):
                     tg = n.targets if isinstance(n, ast.Assign) else [n.target]
                     if any(isinstance(t, ast.Name) and t.id == e.id for t in tg) and n.value is not None:
-                        out += self.dict_keys(n.value, fn, depth + 1)
+                        out += self.dict_keys(n.value, ctx, depth + 1)
                 if isinstance(n, ast.Assign) and any(isinstance(t, ast.Subscript) and isinstance(t.value, ast.Name) and t.value.id == e.id for t in n.targets):
                     for t in n.targets:
                         if isinstance(t, ast.Subscript):
-                            out += self.str_suffixes(t.slice, fn, depth + 1)
-            return out
+                            out += self.str_suffixes(t.slice, ctx, depth + 1)
+            if e.id in binds and depth < 9:
+                out += self.dict_keys(binds[e.id][0], binds[e.id][1], depth + 1)
+            return out or [(False, "?")]
         if isinstance(e, ast.Call) and depth < 9:
-            nm = e.func.id if isinstance(e.func, ast.Name) else (e.func.attr if isinstance(e.func, ast.Attribute) else None)
+            nm = call_name(e)
             out = []
             for g in self.funcs.get(nm, []):
                 for r in ast.walk(g):
                     if isinstance(r, ast.Return) and r.value is not None:
-                        out += self.dict_keys(r.value, g, depth + 1)
+                        out += self.dict_keys(r.value, (g, {}), depth + 1)
             if out:
                 return out
         return [(False, "?")]
 
+    @staticmethod
+    def path_name(pe):
+        """the file-name part of a path expression:  d / name,  d.joinpath(name),  Path(d, name)"""
+        if isinstance(pe, ast.BinOp) and isinstance(pe.op, ast.Div):
+            return pe.right
+        if isinstance(pe, ast.Call) and pe.args and not pe.keywords:
+            last = call_name(pe)
+            if last == "joinpath" or (last in ("Path", "PurePath", "join") and len(pe.args) >= 2):
+                return pe.args[-1]
+        return None
+
+    def target_names(self, pe, ctx, depth=0):
+        """possible (is_constant, suffix) of the file name of the path expression pe, evaluated in ctx.  A local name is followed
+        through all its assignments in the function, a parameter through the argument of the call under analysis."""
+        fn, binds = ctx
+        if depth > 8:
+            return [(False, "?")]
+        ne = self.path_name(pe)
+        if ne is not None:
+            return self.str_suffixes(ne, ctx)
+        if isinstance(pe, ast.Name):
+            out = []
+            for m in ast.walk(fn):
+                if isinstance(m, (ast.Assign, ast.AnnAssign)) and m.value is not None \
+                        and any(isinstance(t, ast.Name) and t.id == pe.id for t in (m.targets if isinstance(m, ast.Assign) else [m.target])):
+                    out += self.target_names(m.value, ctx, depth + 1)
+                elif isinstance(m, (ast.For, ast.comprehension, ast.AugAssign, ast.NamedExpr, ast.withitem)):
+                    tg = m.optional_vars if isinstance(m, ast.withitem) else m.target
+                    if tg is not None and any(isinstance(t, ast.Name) and t.id == pe.id for t in ast.walk(tg)):
+                        out.append((False, "?"))
+            if pe.id in binds:
+                out += self.target_names(binds[pe.id][0], binds[pe.id][1], depth + 1)
+            return out or [(False, "?")]
+        return [(False, "?")]
+
+    def callee_defs(self, call):
+        """definitions a call may run, by simple name: plugin functions / methods of that name; for a plugin class, its special
+        methods (__init__, __post_init__, __enter__, ...: instantiation and use of the instance, over-approximated)"""
+        nm = call_name(call)
+        defs = list(self.funcs.get(nm, []))
+        for c in self.classes.get(nm, []):
+            defs += [m for m in c.body if isinstance(m, (ast.FunctionDef, ast.AsyncFunctionDef)) and m.name.startswith("__") and m.name.endswith("__")]
+        return defs
+
+    @staticmethod
+    def writer_call(n):
+        """None, or how call n writes a file: 'method' (<path>.write_text / .write_bytes), 'open' (<path>.open(mode) / open(path, mode)
+        with a writing mode or a mode that is not a constant), 'other' (shutil copies / moves, os.rename / replace / link, Path.rename / touch / symlink_to ...)"""
+        nm = call_name(n)
+        d = dotted(n.func) or ""
+        if isinstance(n.func, ast.Attribute) and nm in ("write_text", "write_bytes"):
+            return "method"
+        if nm == "open":
+            is_method = isinstance(n.func, ast.Attribute) and d not in ("io.open", "os.open", "codecs.open", "builtins.open")
+            mode = n.args[0 if is_method else 1] if len(n.args) > (0 if is_method else 1) else next((k.value for k in n.keywords if k.arg in ("mode", "flags")), None)
+            if mode is None and not any(k.arg is None for k in n.keywords):
+                return None                                 # default mode "r"
+            if isinstance(mode, ast.Constant) and isinstance(mode.value, str) and not any(ch in mode.value for ch in "wax+"):
+                return None
+            return "open"
+        root = d.split(".")[0]
+        if (root == "shutil" and nm in ("copy", "copy2", "copyfile", "copytree", "move", "copyfileobj")) or \
+                (root == "os" and nm in ("rename", "replace", "renames", "link", "symlink", "mkfifo", "truncate")) or \
+                (isinstance(n.func, ast.Attribute) and nm in ("rename", "touch", "symlink_to", "hardlink_to", "link_to")):
+            return "other"
+        return None
+
+    def cleanup_loops(self, g):
+        """[(node, [patterns])]: loops / comprehensions directly in g that only delete what <dir>.glob(PAT) lists"""
+        res = []
+        for n in own_walk(g):
+            if isinstance(n, (ast.For, ast.comprehension)):
+                it = n.iter
+                while isinstance(it, ast.Call) and isinstance(it.func, ast.Name) and it.func.id in ("sorted", "list", "tuple", "iter") and it.args:
+                    it = it.args[0]
+                if isinstance(it, ast.Call) and isinstance(it.func, ast.Attribute) and it.func.attr in ("glob", "rglob") \
+                        and it.args and isinstance(it.args[0], ast.Constant) and isinstance(it.args[0].value, str):
+                    if self.listing(it)[0] == "SDeleteOnly":
+                        res.append((n if isinstance(n, ast.For) else n._parent, [it.args[0].value]))
+        return res
+
+    @staticmethod
+    def unconditional(node, g):
+        """node is evaluated on every execution of the body of g that reaches its statement: not under a branch (other than
+        `if <p>.exists()/is_dir()`, where the skipped case is a directory that does not exist: nothing to clean), not in a loop
+        body, not in a try body with handlers / a handler, not behind a short-circuit"""
+        c, p = node, getattr(node, "_parent", None)
+        while p is not None and p is not g:
+            if isinstance(p, ast.If) and c is not p.test:
+                t, neg = p.test, False
+                if isinstance(t, ast.UnaryOp) and isinstance(t.op, ast.Not):
+                    t, neg = t.operand, True
+                exists = isinstance(t, ast.Call) and isinstance(t.func, ast.Attribute) and t.func.attr in ("exists", "is_dir") and not t.args and not t.keywords
+                in_body = any(c is s for s in p.body)
+                if not (exists and in_body != neg):
+                    return False
+            elif isinstance(p, (ast.For, ast.AsyncFor)) and c is not p.iter:
+                return False
+            elif isinstance(p, ast.While):
+                return False
+            elif isinstance(p, ast.Try) and not (any(c is s for s in p.finalbody) or (not p.handlers and any(c is s for s in p.body))):
+                return False
+            elif isinstance(p, (ast.ExceptHandler, ast.Lambda, ast.FunctionDef, ast.AsyncFunctionDef, ast.ClassDef)):
+                return False
+            elif type(p).__name__ in ("Match", "match_case", "TryStar"):
+                return False
+            elif isinstance(p, ast.IfExp) and c is not p.test:
+                return False
+            elif isinstance(p, ast.BoolOp) and c is not p.values[0]:
+                return False
+            elif isinstance(p, (ast.ListComp, ast.SetComp, ast.DictComp, ast.GeneratorExp)):
+                return False
+            elif isinstance(p, ast.comprehension) and not (c is p.iter and p is p._parent.generators[0] and not isinstance(p._parent, ast.GeneratorExp)):
+                return False
+            if isinstance(p, ast.comprehension):
+                c, p = p._parent, p._parent._parent         # the first iterable of a comprehension is evaluated where the comprehension stands
+                continue
+            c, p = p, getattr(p, "_parent", None)
+        return p is g
+
+    MAXDEPTH = 6
+
     def ownership(self):
+        """Order-of-effects argument (what makes `cleanup_first` / `writes_owned` sound for the functions analysed).
+        EFFECTS of the exported `generate` function are collected from its body and — at every call of something defined in the
+        plugin package (functions and methods by simple name, all definitions of that name; special methods of plugin classes at
+        an instantiation) — from the body of the callee, recursively, each callee with its parameters bound to the argument
+        expressions of THAT call.  Only callees that can reach a write or a cleanup at all are entered (fixed point over the
+        simple-name call graph); a call chain that is recursive or deeper than MAXDEPTH and can reach a write contributes an
+        unknown write (fail-closed).  Writes: <path>.write_text/.write_bytes with the file name resolved through local
+        assignments and call arguments (unresolved = unknown name "?"), every open() in a writing or unknown mode and every
+        copy / move / rename API (unknown name unless the path resolves).  Cleanups: loops that do nothing but delete
+        <dir>.glob(PAT).
+        POSITION of an effect = the chain of source positions (end of the call expression in the caller, ..., position of the
+        effect in the innermost callee), compared lexicographically: everything a call does happens where the call ENDS (its
+        receiver and arguments are evaluated before the callee runs), in the textual order of the callee's body.  Textual order
+        is execution order in straight-line code; a branch or loop can only make an effect happen later or not at all, so
+        (a) the set of collected writes over-approximates the files written, and (b) a cleanup counts only if the loop itself and
+        every call on its chain are `unconditional` in their function: then it has run to completion at its position on every
+        execution that gets past it, and if it precedes the textually first write, no write of this run happens before the owned
+        pattern has been emptied.  A cleanup loop contains no write (it only deletes), so its start position is used.
+        NOT covered (trusted, see the history stream): effects of code outside the plugin package, calls through values
+        (callbacks, getattr), that the cleaned directory is the directory written to."""
         init = self.mods.get("__init__.py")
         entry = None
         for n in ast.walk(init):
@@ -519,72 +784,81 @@ class Plugin:
         if entry is None or entry not in self.funcs:
             raise Reject("plugin %s: no `generate` export found" % self.name)
         fn = self.funcs[entry][0]
-        events = []      # (line, 'cleanup', pattern) | (line, 'write', suffixes)
 
-        def cleanup_pattern(g):
-            pats = []
-            for n in ast.walk(g):
-                if isinstance(n, (ast.For, ast.comprehension)):
-                    it = n.iter
-                    while isinstance(it, ast.Call) and isinstance(it.func, ast.Name) and it.func.id in ("sorted", "list", "tuple", "iter") and it.args:
-                        it = it.args[0]
-                    if isinstance(it, ast.Call) and isinstance(it.func, ast.Attribute) and it.func.attr in ("glob", "rglob") \
-                            and it.args and isinstance(it.args[0], ast.Constant):
-                        if self.listing(it)[0] == "SDeleteOnly":
-                            pats.append(it.args[0].value)
-            return pats
+        # which definitions can reach a write / a cleanup at all (least fixed point over the simple-name call graph)
+        alldefs = [d for ds in self.funcs.values() for d in ds]
+        calls = {id(d): [n for n in own_walk(d) if isinstance(n, ast.Call)] for d in alldefs}
+        may_write = {id(d): any(self.writer_call(n) for n in calls[id(d)]) for d in alldefs}
+        may_clean = {id(d): bool(self.cleanup_loops(d)) for d in alldefs}
+        callees = {id(d): [h for n in calls[id(d)] for h in self.callee_defs(n)] for d in alldefs}
+        changed = True
+        while changed:
+            changed = False
+            for d in alldefs:
+                for tbl in (may_write, may_clean):
+                    if not tbl[id(d)] and any(tbl[id(h)] for h in callees[id(d)]):
+                        tbl[id(d)] = changed = True
 
-        def visit_fn(g, depth):
-            for n in ast.walk(g):
-                if isinstance(n, ast.Call):
-                    nm = n.func.id if isinstance(n.func, ast.Name) else (n.func.attr if isinstance(n.func, ast.Attribute) else None)
-                    if nm in ("write_text", "write_bytes") and isinstance(n.func, ast.Attribute):
-                        recv = n.func.value
-                        name_e = None
-                        def path_name(pe):
-                            """the file-name part of a path expression:  d / name,  d.joinpath(name),  Path(d, name)"""
-                            if isinstance(pe, ast.BinOp) and isinstance(pe.op, ast.Div):
-                                return pe.right
-                            if isinstance(pe, ast.Call) and pe.args and not pe.keywords:
-                                last = pe.func.attr if isinstance(pe.func, ast.Attribute) else (pe.func.id if isinstance(pe.func, ast.Name) else None)
-                                if last == "joinpath" or (last in ("Path", "PurePath", "join") and len(pe.args) >= 2):
-                                    return pe.args[-1]
-                            return None
-                        name_e = path_name(recv)
-                        if name_e is None and isinstance(recv, ast.Name):
-                            for m in ast.walk(g):
-                                if isinstance(m, (ast.Assign, ast.AnnAssign)) and m.value is not None \
-                                        and any(isinstance(t, ast.Name) and t.id == recv.id for t in (m.targets if isinstance(m, ast.Assign) else [m.target])):
-                                    name_e = path_name(m.value) or name_e
-                        sfx = self.str_suffixes(name_e, g) if name_e is not None else [(True, "<fixed path %s>" % ast.unparse(recv))] if isinstance(recv, ast.Name) else [(False, "?")]
-                        events.append((n.lineno if g is fn else call_line[0], "write", sfx))
-                    elif nm in self.funcs and depth < 2 and g is fn:
-                        for h in self.funcs[nm]:
-                            pats = cleanup_pattern(h)
-                            if pats:
-                                events.append((n.lineno, "cleanup", pats))
-                            else:
-                                call_line[0] = n.lineno
-                                if any(isinstance(x, ast.Call) and isinstance(x.func, ast.Attribute) and x.func.attr in ("write_text", "write_bytes") for x in ast.walk(h)):
-                                    visit_fn(h, depth + 1)
-        call_line = [0]
-        visit_fn(fn, 0)
+        events = []      # (position, 'cleanup', patterns, unconditional) | (position, 'write', suffixes, via)
+
+        def bind(call, h, ctx):
+            params = [a.arg for a in h.args.posonlyargs + h.args.args]
+            if params and params[0] in ("self", "cls") and (isinstance(call.func, ast.Attribute) or call_name(call) in self.classes):
+                params = params[1:]
+            b = {}
+            for i, a in enumerate(call.args):
+                if isinstance(a, ast.Starred):
+                    break
+                if i < len(params):
+                    b[params[i]] = (a, ctx)
+            for k in call.keywords:
+                if k.arg is not None:
+                    b[k.arg] = (k.value, ctx)
+            return b
+
+        def effects(g, binds, pos, stack, uncond):
+            ctx = (g, binds)
+            for n, pats in self.cleanup_loops(g):
+                events.append((pos + ((n.lineno, n.col_offset),), "cleanup", pats, uncond and self.unconditional(n, g)))
+            for n in calls[id(g)]:
+                here = pos + ((n.end_lineno, n.end_col_offset),)
+                w = self.writer_call(n)
+                if w == "method":
+                    events.append((here, "write", self.target_names(n.func.value, ctx), g.name))
+                elif w == "open":
+                    pe = n.func.value if isinstance(n.func, ast.Attribute) else (n.args[0] if n.args else None)
+                    events.append((here, "write", self.target_names(pe, ctx) if pe is not None else [(False, "?")], g.name))
+                elif w == "other":
+                    events.append((here, "write", [(False, "?")], g.name))
+                for h in self.callee_defs(n):
+                    if not (may_write[id(h)] or may_clean[id(h)]):
+                        continue
+                    if any(h is s for s in stack) or len(stack) >= self.MAXDEPTH:
+                        if may_write[id(h)]:
+                            events.append((here, "write", [(False, "?")], "%s (call chain not followed: %s)" % (h.name, "recursive" if any(h is s for s in stack) else "too deep")))
+                        continue
+                    effects(h, bind(n, h, ctx), here, stack + [h], uncond and self.unconditional(n, g))
+
+        effects(fn, {}, (), [fn], True)
         events.sort(key=lambda e: e[0])
         writes = [e for e in events if e[1] == "write"]
-        cleans = [e for e in events if e[1] == "cleanup"]
         if not writes:
-            raise Reject("plugin %s: no write found in %s" % (self.name, entry))
-        cleanup_first = bool(cleans) and cleans[0][0] < writes[0][0]
+            raise Reject("plugin %s: no write found in %s or in what it calls inside the plugin package" % (self.name, entry))
+        first_write = writes[0][0]
+        cleans = [e for e in events if e[1] == "cleanup" and e[3] and e[0] < first_write]
+        cleanup_first = bool(cleans)
         pats = [p for c in cleans for p in c[2]]
         sfx = [s for w in writes for s in w[2]]
         fixed = all(c for c, _ in sfx)
         if cleanup_first:
-            exts = [p[1:] for p in pats if p.startswith("*.") and "/" not in p]
-            owned = all((s.endswith(tuple(exts)) and "/" not in s) or s == "<listed name>" for _, s in sfx) if exts else False
+            exts = [p[1:] for p in pats if p.startswith("*.") and "/" not in p and not any(ch in p[1:] for ch in "*?[")]
+            owned = all(s.endswith(tuple(exts)) and "/" not in s for _, s in sfx) if exts else False
         else:
             owned = fixed
         return {"name": self.name, "entry": entry, "cleanup_first": cleanup_first, "patterns": pats, "fixed_names": fixed, "writes_owned": owned,
-                "written": sorted({("const:" if c else "suffix:") + s for c, s in sfx})}
+                "written": sorted({("const:" if c else "suffix:") + s for c, s in sfx}),
+                "effects": [{"position": [list(x) for x in e[0]], "kind": e[1], "what": sorted({"%s%s" % ("const:" if c else "suffix:", s) for c, s in e[2]}) if e[1] == "write" else e[2],
+                             "in" if e[1] == "write" else "unconditional": e[3]} for e in events]}
 
 
 def main(out_v, out_json):
@@ -617,7 +891,7 @@ def main(out_v, out_json):
     v.append("")
     write_if_changed(out_v, "\n".join(v))
     write_if_changed(out_json, json.dumps({"sites": sites, "plugins": plugs, "modstate": minfo}, indent=1, sort_keys=True) + "\n")
-    bad = [s for s in sites if s["class"] in ("SExposed", "SModState")]
+    bad = [s for s in sites if s["class"] in ("SExposed", "SSortedByKey", "SModState")]
     print("x_emit: %d sites (%s), %d not covered; %d module-level names immutable and never rebound in %d modules; plugins: %s" % (
         len(sites), ", ".join("%s %d" % (k, sum(1 for s in sites if s["class"] == k)) for k in sorted({s["class"] for s in sites})), len(bad),
         minfo["immutable_module_names"], len(minfo["modules"]),
